@@ -663,10 +663,26 @@ theorem reach_points (hc : Codec f rd nc ok) : ∀ (as : List Point) (s : PS) (o
 structure ContourOK' (ok : Nat → Prop) (c : Contour) : Prop where
   points : ∀ p, p ∈ c.points → PointOK ok p
   legal : C11.accepts (c.points.map toPt) = true
-  nonempty : c.points ≠ []
   ident : ∀ i, c.ident = some i → validIdent i = true
 
 def pContour (c : Contour) : Contour := { points := c.points.map pPoint, ident := c.ident }
+
+/-- the contours that come back: those with points, as the parser builds them (a contour without points is written as
+    `<contour></contour>` and dropped by `end_path`) -/
+def keepContours (cs : List Contour) : List Contour := (cs.filter (fun c => !c.points.isEmpty)).map pContour
+
+theorem keepContours_cons (c : Contour) (r : List Contour) :
+    keepContours (c :: r) = keepContours [c] ++ keepContours r := by
+  cases h : c.points.isEmpty <;> simp [keepContours, List.filter_cons, h]
+
+theorem keepContours_of_nonempty {cs : List Contour} (h : ∀ c, c ∈ cs → c.points ≠ []) : keepContours cs = cs.map pContour := by
+  unfold keepContours
+  rw [List.filter_eq_self.2]
+  intro c hc
+  have := h c hc
+  cases hp : c.points with
+  | nil => exact absurd hp this
+  | cons _ _ => simp
 
 theorem toPt_pPoint (ps : List Point) : (ps.map pPoint).map toPt = ps.map toPt := by
   simp [List.map_map, Function.comp_def, toPt, pPoint]
@@ -678,7 +694,7 @@ theorem reach_contour (hc : Codec f rd nc ok) {s : PS} {ob : OB} (hm : s.mode = 
     Reach rd s (contourEvs f c)
       { s with
         seen := pushIds s.seen (cIds c)
-        mode := .outline { ob with contours := ob.contours ++ [pContour c] } } := by
+        mode := .outline { ob with contours := ob.contours ++ keepContours [c] } } := by
   unfold cIds at hnd hfr
   obtain ⟨f1, f2, f3⟩ := fresh_split hnd hfr
   have hcid := contourAttrs_roundtrip (seen := s.seen) (cid := c.ident) (fun i hi => ⟨f1 i hi, hok.ident i hi⟩)
@@ -690,17 +706,24 @@ theorem reach_contour (hc : Codec f rd nc ok) {s : PS} {ob : OB} (hm : s.mode = 
   have h2 := reach_points hc c.points { s with
         seen := pushIds s.seen c.ident.toList
         mode := .contour ob c.ident [] } ob c.ident [] rfl hv hok.points f2 f3
-  have hne : (c.points.map pPoint).isEmpty = false := by
-    cases hp : c.points with
-    | nil => exact absurd hp hok.nonempty
-    | cons _ _ => simp
   have h3 : step rd { s with
         seen := pushIds (pushIds s.seen c.ident.toList) (c.points.filterMap (·.ident))
         mode := .contour ob c.ident ([] ++ c.points.map pPoint) } (.close sContour) = .ok (.inl
       { s with
         seen := pushIds (pushIds s.seen c.ident.toList) (c.points.filterMap (·.ident))
-        mode := .outline { ob with contours := ob.contours ++ [pContour c] } }) := by
-    simp [step, stepContour, toPt_comp_pPoint, hok.legal, hne, cont, pContour]
+        mode := .outline { ob with contours := ob.contours ++ keepContours [c] } }) := by
+    cases hp : c.points with
+    | nil =>
+      have hl := hok.legal
+      rw [hp] at hl
+      have ha : C11.accepts [] = true := by decide
+      simp [step, stepContour, ha, cont, keepContours, hp]
+    | cons p r =>
+      have hl := hok.legal
+      rw [hp] at hl
+      simp only [List.map_cons] at hl
+      have e : toPt (pPoint p) = toPt p := rfl
+      simp [step, stepContour, toPt_comp_pPoint, e, hl, cont, pContour, keepContours, hp]
   unfold contourEvs
   refine (Reach.cons h1 (Reach.append h2 (Reach.one h3))).cast ?_
   simp [cIds, pushIds_append]
@@ -712,10 +735,10 @@ theorem reach_contours (hc : Codec f rd nc ok) : ∀ (cs : List Contour) (s : PS
     Reach rd s (cs.flatMap (contourEvs f))
       { s with
         seen := pushIds s.seen (cs.flatMap cIds)
-        mode := .outline { ob with contours := ob.contours ++ cs.map pContour } } := by
+        mode := .outline { ob with contours := ob.contours ++ keepContours cs } } := by
   intro cs
   induction cs with
-  | nil => intro s ob hm _ _ _ _; exact (Reach.nil s).cast (by cases s; simp_all [pushIds_nil])
+  | nil => intro s ob hm _ _ _ _; exact (Reach.nil s).cast (by cases s; simp_all [pushIds_nil, keepContours])
   | cons c r ih =>
     intro s ob hm hv hok hnd hfr
     rw [List.flatMap_cons] at hnd hfr
@@ -723,12 +746,12 @@ theorem reach_contours (hc : Codec f rd nc ok) : ∀ (cs : List Contour) (s : PS
     have h1 := reach_contour hc hm hv (hok c List.mem_cons_self) f1 f2
     have h2 := ih { s with
         seen := pushIds s.seen (cIds c)
-        mode := .outline { ob with contours := ob.contours ++ [pContour c] } }
-      { ob with contours := ob.contours ++ [pContour c] } rfl hv
+        mode := .outline { ob with contours := ob.contours ++ keepContours [c] } }
+      { ob with contours := ob.contours ++ keepContours [c] } rfl hv
       (fun b hb => hok b (List.mem_cons_of_mem _ hb)) f3 f4
     rw [List.flatMap_cons]
     refine (Reach.append h1 h2).cast ?_
-    simp [List.flatMap_cons, pushIds_append, List.append_assoc]
+    simp [List.flatMap_cons, pushIds_append, List.append_assoc, keepContours_cons c r]
 theorem reach_outline (hc : Codec f rd nc ok) {s : PS} (hm : s.mode = .body) (hv : s.ver = 2)
     (hs : s.seenOutline = false) (cs : List Contour) (ks : List Component)
     (hcs : ∀ c, c ∈ cs → ContourOK' ok c) (hks : ∀ k, k ∈ ks → ComponentOK ok k)
@@ -740,7 +763,7 @@ theorem reach_outline (hc : Codec f rd nc ok) {s : PS} (hm : s.mode = .body) (hv
       { s with
         seenOutline := (!cs.isEmpty || !ks.isEmpty)
         seen := pushIds s.seen (cs.flatMap cIds ++ ks.filterMap (·.ident))
-        g := { s.g with contours := s.g.contours ++ cs.map pContour, components := s.g.components ++ ks.map pComponent } } := by
+        g := { s.g with contours := s.g.contours ++ keepContours cs, components := s.g.components ++ ks.map pComponent } } := by
   by_cases hcond : (!cs.isEmpty || !ks.isEmpty) = true
   · simp only [hcond, if_true]
     obtain ⟨f1, f2, f3, f4⟩ := fresh_append hnd hfr
@@ -750,18 +773,18 @@ theorem reach_outline (hc : Codec f rd nc ok) {s : PS} (hm : s.mode = .body) (hv
     have h3 := reach_components hc ks { s with
         seenOutline := true
         seen := pushIds s.seen (cs.flatMap cIds)
-        mode := .outline { contours := [] ++ cs.map pContour, components := [] } }
-      { contours := [] ++ cs.map pContour, components := [] } rfl hv hks f3 f4
+        mode := .outline { contours := [] ++ keepContours cs, components := [] } }
+      { contours := [] ++ keepContours cs, components := [] } rfl hv hks f3 f4
     have h4 : step rd { s with
         seenOutline := true
         seen := pushIds (pushIds s.seen (cs.flatMap cIds)) (ks.filterMap (·.ident))
-        mode := .outline { contours := [] ++ cs.map pContour, components := [] ++ ks.map pComponent } }
+        mode := .outline { contours := [] ++ keepContours cs, components := [] ++ ks.map pComponent } }
         (.close sOutline) = .ok (.inl
       { s with
         seenOutline := true
         seen := pushIds (pushIds s.seen (cs.flatMap cIds)) (ks.filterMap (·.ident))
         mode := .body
-        g := { s.g with contours := s.g.contours ++ cs.map pContour, components := s.g.components ++ ks.map pComponent } }) := by
+        g := { s.g with contours := s.g.contours ++ keepContours cs, components := s.g.components ++ ks.map pComponent } }) := by
       simp [step, stepOutline, cont, finishOutline, hv]
     refine (Reach.cons h1 (Reach.append (Reach.append h2 h3) (Reach.one h4))).cast ?_
     cases s with | mk g _ _ _ _ _ _ => cases g; simp_all [pushIds_append]
@@ -769,7 +792,7 @@ theorem reach_outline (hc : Codec f rd nc ok) {s : PS} (hm : s.mode = .body) (hv
     have hk1 : ks = [] := by cases ks <;> simp_all
     subst hc1; subst hk1
     simp only [hcond]
-    exact (Reach.nil s).cast (by cases s with | mk g _ _ _ _ _ _ => cases g; simp_all [pushIds_nil])
+    exact (Reach.nil s).cast (by cases s with | mk g _ _ _ _ _ _ => cases g; simp_all [pushIds_nil, keepContours])
 
 theorem reach_advance_block (hc : Codec f rd nc ok) {s : PS} (hm : s.mode = .body) (hs : s.seenAdvance = false)
     {w h : Nat} (hw : ok w) (hh : ok h) :
@@ -895,7 +918,7 @@ def preG (f : Fmt) (nc : Color → Color) (g : Glyph) : Glyph :=
     guidelines := g.guidelines.map (pGuideline nc)
     anchors := g.anchors.map (pAnchor nc)
     components := g.components.map pComponent
-    contours := g.contours.map pContour
+    contours := keepContours g.contours
     image := g.image.map (pImage nc)
     lib := reindentDict f.indent (writtenLib g) }
 
